@@ -79,6 +79,10 @@ class AbsSearcher:
         return 'AbsSearcher'
 
 
+class _PatBase:
+    """common base: isinstance(p, type(re.compile(''))) holds for every fake pattern"""
+
+
 class FakeMatch:
     def __init__(self, s, e, pat):
         self._s, self._e, self.re = s, e, pat
@@ -93,7 +97,7 @@ class FakeMatch:
         return (self._s, self._e)
 
 
-class AbsPat:
+class AbsPat(_PatBase):
     """A compiled-pattern look-alike whose single search() result is scripted:
     None, or any span with pos <= start <= end <= len(buffer) (CPython's re contract)."""
 
@@ -112,7 +116,7 @@ class AbsPat:
         return FakeMatch(self.a, self.b, self)
 
 
-class LitPat:
+class LitPat(_PatBase):
     """Escape-free literal pattern: search == find (leftmost at or after pos)."""
 
     def __init__(self, s):
@@ -127,7 +131,7 @@ class LitPat:
         return FakeMatch(n, n + len(self.s), self)
 
 
-class EndPat:
+class EndPat(_PatBase):
     r"""The zero-width end anchor \Z: matches (len, len) from any pos <= len."""
     pattern = r'\Z'
     flags = 0
@@ -139,7 +143,7 @@ class EndPat:
         return FakeMatch(n, n, self)
 
 
-class DotN:
+class DotN(_PatBase):
     """'.{n}' with DOTALL: the first n characters at pos."""
 
     def __init__(self, n):
@@ -202,6 +206,11 @@ class ScriptedSpawn(SpawnBase):
         self.delayafterread = None
         self.read_args = []
 
+    def __repr__(self):
+        return '<ScriptedSpawn>'
+
+    __str__ = __repr__
+
     def read_nonblocking(self, size=1, timeout=None):
         self.reads += 1
         self.read_args.append((size, timeout))
@@ -224,3 +233,73 @@ def frozen_time():
     """Patch pexpect.expect's clock with one that never advances (so only the script
     decides when a call ends)."""
     return patched(_E, time=Clock(0))
+
+
+class FakeRe:
+    """`re` stand-in (installed as pexpect.spawnbase.re while tracing) for the patterns pexpect
+    itself compiles from strings: escape-free literals -> LitPat, '.{n}' -> DotN.  Records
+    (pattern, flags) of every compile."""
+    DOTALL = _real_re.DOTALL
+    IGNORECASE = _real_re.IGNORECASE
+
+    def __init__(self):
+        self.compiled = []
+
+    def compile(self, p, flags=0):
+        self.compiled.append((p, flags))
+        if type(p) is str and p == '':
+            return _PatBase()
+        if type(p) is str and p.startswith('.{') and p.endswith('}') and p[2:-1].lstrip('-').isdigit():
+            pat = DotN(int(p[2:-1]))
+            if not (flags & _real_re.DOTALL):
+                raise NotImplementedError("FakeRe: '.{n}' without DOTALL")
+            return pat
+        pat = LitPat(p)
+        pat.flags = flags
+        return pat
+
+
+
+
+class fake_re:
+    """with fake_re(): pexpect.spawnbase.re is FakeRe while tracing (real re in concrete replays)."""
+
+    def __enter__(self):
+        import pexpect.spawnbase as SB
+        self.SB = SB
+        self.old = SB.re
+        self.fake = None
+        if tracing():
+            self.fake = FakeRe()
+            SB.re = self.fake
+        return self
+
+    def __exit__(self, *a):
+        self.SB.re = self.old
+        return False
+
+
+class quiet_searchers:
+    """Formatting stub: while tracing, searcher_string/searcher_re.__str__ return a constant, so that
+    building an EOF/TIMEOUT message never formats symbolic text (CrossHair would realize it).
+    The real __str__ methods are exercised with concrete text by C04.O3."""
+
+    def __enter__(self):
+        self.old = (_E.searcher_string.__str__, _E.searcher_re.__str__)
+        if tracing():
+            _E.searcher_string.__str__ = lambda self: 'searcher_string:<stubbed>'
+            _E.searcher_re.__str__ = lambda self: 'searcher_re:<stubbed>'
+        return self
+
+    def __exit__(self, *a):
+        _E.searcher_string.__str__, _E.searcher_re.__str__ = self.old
+        return False
+
+
+def pick(x, lo, hi):
+    """Concretise a small symbolic selector by explicit case split (one clean fork per value)
+    so that later list indexing / slicing / range() see a plain int."""
+    for k in range(lo, hi + 1):
+        if x == k:
+            return k
+    raise Skip()
